@@ -1049,6 +1049,37 @@ def file_roundtrip(inp, W):
         shutil.rmtree(d, ignore_errors=True)
 
 @op
+def file_restrict(inp, W):
+    """DataFrame.write_<fmt> once, then read_<fmt> in full and with columns= (and dtypes=)"""
+    import os, shutil, tempfile
+    di = W.di
+    obj = inp["obj"]; fmt = inp["fmt"]
+    kw = {"columns": list(inp["cols"])}
+    dt = {k: {"float": float}[t] for k, t in inp.get("types") or []}
+    if dt: kw["dtypes"] = dt
+    name = f"t.{fmt}"
+    if W.sym:
+        from . import fsstub
+        util = __import__("dataiter.util", fromlist=["x"]); dfm = __import__("dataiter.data_frame", fromlist=["x"])
+        lm = __import__("dataiter.list_of_dicts", fromlist=["x"])
+        fs = fsstub.FS()
+        path = "/stub/" + name
+        with fsstub.install(fs, W, util, dfm, lm):
+            getattr(obj, f"write_{fmt}")(path)
+            full = getattr(di.DataFrame, f"read_{fmt}")(path)
+            part = getattr(di.DataFrame, f"read_{fmt}")(path, **kw)
+        return {"full": full, "part": part}
+    d = tempfile.mkdtemp(prefix="vf_c14_")
+    try:
+        path = os.path.join(d, name)
+        getattr(obj, f"write_{fmt}")(path)
+        full = getattr(di.DataFrame, f"read_{fmt}")(path)
+        part = getattr(di.DataFrame, f"read_{fmt}")(path, **kw)
+        return {"full": full, "part": part}
+    finally:
+        shutil.rmtree(d, ignore_errors=True)
+
+@op
 def geo_roundtrip(inp, W):
     """GeoJSON.write followed by GeoJSON.read of the written file"""
     import json, os, shutil, tempfile
